@@ -77,14 +77,14 @@ Qed.
 
 Theorem budget_int r v : 1 <= v -> get_max r (1, v) = Z.min r v.
 Proof.
-  intro Hv. rewrite get_max_closed. unfold budget_closed, at_least_one. cbn [Z.eqb].
+  intro Hv. rewrite get_max_closed. unfold budget_closed, at_least_one. cbn [Z.eqb Pos.eqb].
   destruct (Z.eqb_spec v 0); lia.
 Qed.
 
 Theorem budget_percent r v :
   0 <= r -> 0 <= v -> get_max r (2, v) = Z.min r (Z.max 1 ((v * r) / 100)).
 Proof.
-  intros Hr Hv. rewrite get_max_closed. unfold budget_closed, at_least_one. cbn [Z.eqb].
+  intros Hr Hv. rewrite get_max_closed. unfold budget_closed, at_least_one. cbn [Z.eqb Pos.eqb].
   assert (0 <= v * r / 100) by (apply Z.div_pos; nia).
   destruct (Z.eqb_spec (v * r / 100) 0); lia.
 Qed.
@@ -94,7 +94,7 @@ Theorem budget_default r :
   0 <= r ->
   get_max r (0, 0) = if r <=? 3 then Z.min r 1 else if r <=? 10 then 2 else (10 * r) / 100.
 Proof.
-  intro Hr. rewrite get_max_closed. unfold budget_closed, default_budget. cbn [Z.eqb].
+  intro Hr. rewrite get_max_closed. unfold budget_closed, default_budget. cbn [Z.eqb Pos.eqb].
   destruct (Z.ltb_spec 10 r), (Z.leb_spec 4 r), (Z.leb_spec r 3), (Z.leb_spec r 10); try lia.
   assert (10 * r / 100 <= r) by (apply Z.div_le_upper_bound; lia). lia.
 Qed.
